@@ -32,8 +32,17 @@ def case_of(st):
     return json.dumps(c, separators=(',', ':'))[:-1]
 
 
-def with_nv(base, nv):
-    return f'{base},"nv":{nv}}}\n'
+def with_nv(base, nv, bulk=0):
+    return f'{base},"nv":{nv},"bulk":{bulk}}}\n'
+
+
+BULKS = [99, 100, 150, 201]   # filler buckets per organization (99 + the 2 system buckets is the first count above one page of 100)
+
+
+def deletes_org(base):
+    if 'deleteOrg' not in base:
+        return False
+    return any(x['a'] == 'deleteOrg' and x['ok'] for x in json.loads(base + '}')['steps'])
 
 
 def run(ctx):
@@ -77,6 +86,13 @@ def run(ctx):
     for st in extra:
         for nv in range(NVARIANTS):
             jobs.append(with_nv(st, nv))
+    # "bulk" concretisation for a seed-chosen share of the histories that delete an organization: every organization carries
+    # >= 99 filler buckets (more than one listing page together with its system buckets); all of them must go with it
+    withdel = [st for st in chosen if deletes_org(st)]
+    bulk = vlib.sample_list(ctx.rng, withdel, min(len(withdel) // 2 + 1, 1500 if tier == 'quick' else 20000))
+    for st in bulk:
+        jobs.append(with_nv(st, ctx.rng.randrange(NVARIANTS), ctx.rng.choice(BULKS)))
+    nbulk = len(bulk)
     # longer histories: random behaviours of a deeper configuration, each replayed with its final tables
     nsim = 0
     s = ctx.tlc('Tenant', f'Tenant.Sim_{tier}.cfg', timeout=900, simulate={'num': max(1, (6000 if tier == 'quick' else 30000) // vlib.NCPU)},   # TLC's num is per worker
@@ -86,8 +102,12 @@ def run(ctx):
     for b in ctx.sim_behaviours(s):
         st = b[-1]
         if st['hist']:
-            jobs.append(with_nv(case_of(st), ctx.rng.randrange(NVARIANTS)))
+            base = case_of(st)
+            jobs.append(with_nv(base, ctx.rng.randrange(NVARIANTS)))
             nsim += 1
+            if deletes_org(base) and ctx.rng.random() < 0.1:
+                jobs.append(with_nv(base, ctx.rng.randrange(NVARIANTS), ctx.rng.choice(BULKS)))
+                nbulk += 1
     for t in th:
         t.join()
     if 'mc_err' in box:
@@ -109,11 +129,14 @@ def run(ctx):
     ctx.extra_cov['max_history_length'] = maxlen
     ctx.extra_cov['cases_with_all_name_variants'] = len(extra)
     ctx.extra_cov['simulated_long_histories'] = nsim
+    ctx.extra_cov['bulk_cases'] = nbulk
+    ctx.extra_cov['histories_with_org_delete'] = len(withdel)
     ctx.rule = ('every TLC history (every prefix is its own case) of create/rename/delete of organizations, buckets and users and '
                 'membership creation/removal over the 2-name domain {n1,n2} plus the reserved name _tasks, up to the bound of the Gen config '
                 '(sampled by seed only when above the budget), plus TLC-simulated longer histories; each history runs under a seed-chosen concretisation of the two names '
                 '(plain, prefix of each other, inner spaces, non-ascii/case, surrounding whitespace, slash) and a seed-chosen part under '
-                'all six; non-trivial = the history contains a refused operation or a successful rename/delete; distinct = distinct '
+                'all six; a seed-chosen share of the histories that delete an organization additionally runs in the bulk concretisation '
+                '(every organization carries 99..201 filler buckets that must exist exactly as long as it does); non-trivial = the history contains a refused operation or a successful rename/delete; distinct = distinct '
                 '(operation sequence, final tables)')
     ctx.assumptions += [
         'sequential histories through the tenant.Service API (no concurrent operations; the several kv transactions of '
